@@ -53,6 +53,157 @@ func runC08(c *Ctx) {
 	}
 }
 
+// payloadForm is one way the value sent on the output can have been produced.
+type payloadForm struct {
+	origin string // "B", "item", "other"
+	cloned bool
+	mode   string // "nocopy", "copy" or "" (no mode test on the way)
+	detail string
+	clone  *ssa.Call
+}
+
+// payloadForms walks the sent value back through helper returns, phis and - when it reaches a
+// parameter - through every call site of the enclosing function, collecting for each path whether
+// a clone was made and which copy/no-copy mode test dominated the steps on the way.
+func (p *Prog) payloadForms(fn *ssa.Function, v ssa.Value, mode string, cloned bool, clone *ssa.Call, depth int, out *[]payloadForm) {
+	if depth > 12 {
+		*out = append(*out, payloadForm{origin: "other", detail: "too deep"})
+		return
+	}
+	pick := func(m string, b *ssa.BasicBlock) string {
+		if m != "" {
+			return m
+		}
+		return p.modeOf(b)
+	}
+	v = stripChangeType(v)
+	switch x := v.(type) {
+	case *ssa.Parameter:
+		sites := p.CallSites(fn)
+		if len(sites) == 0 {
+			*out = append(*out, payloadForm{origin: "item", cloned: cloned, mode: mode, clone: clone})
+			return
+		}
+		idx := paramIndex(fn, x)
+		for _, cs := range sites {
+			p.payloadForms(cs.Parent(), cs.Common().Args[idx], pick(mode, cs.Block()), cloned, clone, depth+1, out)
+		}
+	case *ssa.Extract:
+		*out = append(*out, payloadForm{origin: "item", cloned: cloned, mode: mode, clone: clone})
+	case *ssa.Slice:
+		*out = append(*out, payloadForm{origin: "other", detail: "slice expression " + p.Sym(x).String()})
+	case *ssa.Phi:
+		for i, e := range x.Edges {
+			pred := x.Block().Preds[i]
+			m := mode
+			if m == "" {
+				m = p.modeOf(pred)
+				for k, s := range pred.Succs {
+					if s == x.Block() {
+						if nc, ok := p.modeEdge(CondEdge{pred, k}); ok {
+							m = map[bool]string{true: "nocopy", false: "copy"}[nc]
+						}
+					}
+				}
+			}
+			p.payloadForms(fn, e, m, cloned, clone, depth+1, out)
+		}
+	case *ssa.UnOp:
+		if x.Op == token.MUL && p.isFieldLoad(x, "join") {
+			*out = append(*out, payloadForm{origin: "B", cloned: cloned, mode: mode, clone: clone})
+			return
+		}
+		if x.Op == token.MUL {
+			if al, ok := x.X.(*ssa.Alloc); ok {
+				for _, r := range *al.Referrers() {
+					if st, ok := r.(*ssa.Store); ok && st.Addr == al {
+						p.payloadForms(fn, st.Val, pick(mode, st.Block()), cloned, clone, depth+1, out)
+					}
+				}
+				return
+			}
+		}
+		*out = append(*out, payloadForm{origin: "other", detail: p.Sym(x).String()})
+	case *ssa.Call:
+		callee := p.Callee(x)
+		if callee != nil && callee.String() == "slices.Clone" {
+			p.payloadForms(fn, x.Call.Args[0], mode, true, x, depth+1, out)
+			return
+		}
+		if bi, ok := x.Call.Value.(*ssa.Builtin); ok && bi.Name() == "append" && len(x.Call.Args) == 2 {
+			fresh := isNilConst(x.Call.Args[0])
+			if ms, ok := x.Call.Args[0].(*ssa.MakeSlice); ok {
+				if k, isK := constDuration(ms.Len); isK && k == 0 {
+					fresh = true
+				}
+			}
+			if fresh {
+				p.payloadForms(fn, x.Call.Args[1], mode, true, x, depth+1, out)
+				return
+			}
+		}
+		if callee != nil && p.IsProduct(callee) {
+			for _, b := range callee.Blocks {
+				ret, ok := b.Instrs[len(b.Instrs)-1].(*ssa.Return)
+				if !ok || b.Comment == "recover" || len(ret.Results) != 1 {
+					continue
+				}
+				rv := stripChangeType(ret.Results[0])
+				m := pick(mode, b)
+				if par, isPar := rv.(*ssa.Parameter); isPar {
+					// the helper hands its argument back: continue with the argument in this frame
+					p.payloadForms(fn, x.Call.Args[paramIndex(callee, par)], m, cloned, clone, depth+1, out)
+					continue
+				}
+				// values computed inside the helper (e.g. Clone(param)): resolve its parameters here
+				var inner []payloadForm
+				p.payloadFormsIn(callee, x, fn, rv, m, cloned, clone, depth+1, &inner)
+				*out = append(*out, inner...)
+			}
+			return
+		}
+		*out = append(*out, payloadForm{origin: "other", detail: p.Sym(x).String()})
+	default:
+		*out = append(*out, payloadForm{origin: "other", detail: p.Sym(v).String()})
+	}
+}
+
+// payloadFormsIn evaluates v inside callee (called at `site` in caller); parameters of the callee
+// are continued with the arguments of that call.
+func (p *Prog) payloadFormsIn(callee *ssa.Function, site *ssa.Call, caller *ssa.Function, v ssa.Value, mode string, cloned bool, clone *ssa.Call, depth int, out *[]payloadForm) {
+	v = stripChangeType(v)
+	if par, ok := v.(*ssa.Parameter); ok && par.Parent() == callee {
+		p.payloadForms(caller, site.Call.Args[paramIndex(callee, par)], mode, cloned, clone, depth+1, out)
+		return
+	}
+	if call, ok := v.(*ssa.Call); ok {
+		cal := p.Callee(call)
+		if cal != nil && cal.String() == "slices.Clone" {
+			p.payloadFormsIn(callee, site, caller, call.Call.Args[0], mode, true, call, depth+1, out)
+			return
+		}
+		if bi, isB := call.Call.Value.(*ssa.Builtin); isB && bi.Name() == "append" && len(call.Call.Args) == 2 {
+			fresh := isNilConst(call.Call.Args[0])
+			if ms, isMS := call.Call.Args[0].(*ssa.MakeSlice); isMS {
+				if k, isK := constDuration(ms.Len); isK && k == 0 {
+					fresh = true
+				}
+			}
+			if fresh {
+				p.payloadFormsIn(callee, site, caller, call.Call.Args[1], mode, true, call, depth+1, out)
+				return
+			}
+		}
+	}
+	if ph, ok := v.(*ssa.Phi); ok {
+		for _, e := range ph.Edges {
+			p.payloadFormsIn(callee, site, caller, e, mode, cloned, clone, depth+1, out)
+		}
+		return
+	}
+	*out = append(*out, payloadForm{origin: "other", detail: p.Sym(v).String()})
+}
+
 func checkK1(c *Ctx, jr *joinRoles) {
 	p := jr.p
 	n := 0
@@ -62,70 +213,34 @@ func checkK1(c *Ctx, jr *joinRoles) {
 		}
 		n++
 		var problems []string
-		type cand struct {
-			v    ssa.Value
-			mode string
-			fr   *Frame
-		}
-		var cands []cand
-		root := &Frame{Fn: jr.emitFn}
-		sendMode := p.modeOf(ss.In.Block())
-		if call, ok := ss.Val.(*ssa.Call); ok && p.IsProduct(p.Callee(call)) {
-			callee := p.Callee(call)
-			child := &Frame{Fn: callee, Site: call, Parent: root}
-			for _, b := range callee.Blocks {
-				if ret, ok := b.Instrs[len(b.Instrs)-1].(*ssa.Return); ok && b.Comment != "recover" {
-					m := p.modeOf(b)
-					if m == "" {
-						m = sendMode
-					}
-					cands = append(cands, cand{ret.Results[0], m, child})
-				}
-			}
-		} else if ph, ok := ss.Val.(*ssa.Phi); ok {
-			for i, e := range ph.Edges {
-				pred := ph.Block().Preds[i]
-				m := p.modeOf(pred)
-				for k, s := range pred.Succs {
-					if s == ph.Block() {
-						if nc, ok := p.modeEdge(CondEdge{pred, k}); ok {
-							m = map[bool]string{true: "nocopy", false: "copy"}[nc]
-						}
-					}
-				}
-				if m == "" {
-					m = sendMode
-				}
-				cands = append(cands, cand{e, m, root})
-			}
-		} else {
-			cands = append(cands, cand{ss.Val, sendMode, root})
-		}
-		for _, cd := range cands {
-			if cd.mode == "nocopy" {
+		var forms []payloadForm
+		p.payloadForms(jr.emitFn, ss.Val, p.modeOf(ss.In.Block()), false, nil, 0, &forms)
+		for _, f := range forms {
+			if f.origin == "other" {
+				problems = append(problems, "UNDECIDED: payload origin "+f.detail)
 				continue
 			}
-			pl := p.payloadOrigin(cd.fr, cd.v)
-			for _, cl := range pl.cloned {
-				if !cl {
-					problems = append(problems, fmt.Sprintf("in copy mode (%s) the payload %s is the internal buffer / input slice itself, not a clone: the consumer's slice is overwritten by later elements", modeName(cd.mode), p.Sym(cd.v)))
-				}
+			if f.mode == "nocopy" {
+				continue
 			}
-			if len(pl.cloned) == 0 {
-				problems = append(problems, "UNDECIDED: payload origin "+pl.detail)
+			what := map[string]string{"B": "the accumulation buffer", "item": "an input slice"}[f.origin]
+			if !f.cloned {
+				problems = append(problems, fmt.Sprintf("in copy mode (%s) %s itself is sent, not a clone: the consumer's slice shares memory with the discipline / the producer", modeName(f.mode), what))
 			}
-			// the clone must have no other use
-			if call, ok := stripChangeType(cd.v).(*ssa.Call); ok {
-				for _, ref := range *call.Referrers() {
+			if f.clone != nil {
+				for _, ref := range *f.clone.Referrers() {
 					switch ref.(type) {
-					case *ssa.Return, *ssa.Send, *ssa.Select, *ssa.Phi, *ssa.ChangeType, *ssa.DebugRef:
+					case *ssa.Return, *ssa.Send, *ssa.Select, *ssa.Phi, *ssa.ChangeType, *ssa.DebugRef, *ssa.Call, *ssa.Store:
 					default:
 						problems = append(problems, fmt.Sprintf("the clone is also used at %s", p.InstrPos(ref)))
 					}
 				}
 			}
 		}
-		c.R.Check(len(problems) == 0, "K1", joinKey(jr, jr.emitFn, fmt.Sprintf("send.%d", n)), p.InstrPos(ss.In), fmt.Sprintf("%d payload forms; copy-mode forms are fresh clones", len(cands)), strings.Join(dedup(problems), "; "))
+		if len(forms) == 0 {
+			problems = append(problems, "UNDECIDED: no payload form found")
+		}
+		c.R.Check(len(problems) == 0, "K1", joinKey(jr, jr.emitFn, fmt.Sprintf("send.%d", n)), p.InstrPos(ss.In), fmt.Sprintf("%d payload forms; copy-mode forms are fresh clones", len(forms)), strings.Join(dedup(problems), "; "))
 	}
 }
 
